@@ -14,9 +14,9 @@ PIN2 = "INVARIANTS TypeOK Fixpoint\nPROPERTIES LivelockOnlyWhenPatched\n"
 
 
 def cfg(name, cls, items, fills, absw, orgs, labels='{"la", "lb"}', fixed="TRUE", tail=SAFE, throw="FALSE",
-        extra="TRUE", ill="FALSE", offs="{1}", head="", spec=None, complete="FALSE", tmax=3, selfk="{}"):
+        extra="TRUE", ill="FALSE", offs="{1}", head="", spec=None, complete="FALSE", tmax=3, selfk="{}", pages="{}", preset="TRUE"):
     c = dict(CLS[cls])
-    c.update(SelfKinds=selfk, Labels=labels, MaxItems=items, Fills=fills, AbsWidths=absw, EquOffs=offs, Orgs=orgs, Fixed=fixed,
+    c.update(Pages=pages, PageReset=preset, SelfKinds=selfk, Labels=labels, MaxItems=items, Fills=fills, AbsWidths=absw, EquOffs=offs, Orgs=orgs, Fixed=fixed,
              ThrowErrors=throw, ThrowMaxPass=tmax, WithExtra=extra, AllowIllFormed=ill, Complete=complete)
     with open(os.path.join(SPEC, name), "w") as f:
         f.write("\\* %s\n" % head if head else "")
@@ -60,6 +60,13 @@ cfg("PassLoop_Gen_self86.cfg", "86", 3, "{1}", "{2}", "{0}", offs="{}", selfk=AL
     head="(M)+(G) 8086 class with self-referencing statements, every program <= 3 items")
 cfg("PassLoop_MC_self68k_pinned.cfg", "68k", 3, "{1}", "{2}", "{0}", offs="{}", selfk=ALLSELF, fixed="FALSE", tail=PIN2,
     head="pinned SymbolAdder with self-referencing statements: livelock only with a patched label")
+# ASSUME of the direct/base page: 0..2 Assume items around references; origin 254 puts a label on either side
+# of the page boundary with 2..3 items
+cfg("PassLoop_Gen_pageabs.cfg", "abs", 4, "{1}", "{2}", "{254}", offs="{}", pages="{0, 1}", tail=GTAIL, spec=GEN,
+    head="(M)+(G) 6809/65CE02 with ASSUME DPR/B: every program <= 4 items")
+cfg("PassLoop_MC_page_leak.cfg", "abs", 4, "{1}", "{2}", "{254}", offs="{}", pages="{1}", preset="FALSE",
+    tail="INVARIANTS TypeOK Fixpoint\n",
+    head="a generator that resets the assumed page only at start-up: TLC must report Fixpoint violated")
 for c, fills, absw, orgs in (("68k", "{1, 2, 3, 4, 118}", "{2, 4}", "{0, 1}"), ("abs", "{1, 2, 3, 4, 120}", "{2}", "{0, 250}"),
                              ("86", "{1, 2, 3, 4, 119}", "{2}", "{0}")):
     cfg("PassLoop_Sim_%s.cfg" % c, c, 12, fills, absw, orgs, labels='{"la", "lb", "lc"}', offs="{2}", complete="TRUE", selfk='{"labs", "lvar", "lrel"}',
@@ -67,7 +74,7 @@ for c, fills, absw, orgs in (("68k", "{1, 2, 3, 4, 118}", "{2, 4}", "{0, 1}"), (
         head="simulation: %s class, programs <= 12 items (+ closing definitions), 3 labels" % c)
 for c in CLS:
     d = dict(CLS[c]); d.pop("RelFpuOK")
-    d.update(Labels='{"la", "lb", "lc"}', Fills="{}", AbsWidths="{2, 4}", EquOffs="{}", SelfKinds="{}")
+    d.update(Labels='{"la", "lb", "lc"}', Fills="{}", AbsWidths="{2, 4}", EquOffs="{}", SelfKinds="{}", Pages="{}")
     with open(os.path.join(SPEC, "PassLoop_Obs_%s.cfg" % c), "w") as f:
         f.write("\\* verdict on decoded layouts, %s class\nCONSTANTS\n" % c + "".join("  %s = %s\n" % kv for kv in d.items()))
         f.write("INIT OInit\nNEXT ONext\nPOSTCONDITION Accepted\nCHECK_DEADLOCK FALSE\n")
